@@ -90,7 +90,7 @@ func checkC15(c *run.Ctx) {
 		t := t
 		types = append(types, &t)
 	}
-	extraVariants := []string{"none", "benign", "empty-key", "alias-names", "many"}
+	extraVariants := []string{"none", "benign", "empty-key", "alias-names", "many", "quoted-merge-key"}
 	nrows := (1 << len(c15Keys)) * len(types) * len(extraVariants)
 	c.Count("table_rows", nrows)
 	c.Parallel("table", nrows, func(i int, r *rand.Rand) {
@@ -116,6 +116,17 @@ func checkC15(c *run.Ctx) {
 			pairs = append(pairs, doc.P("", doc.S("e")))
 		case "alias-names":
 			pairs = append(pairs, doc.P("name", doc.S("n")), doc.P("id", doc.S("i")), doc.P("identifier", doc.S("x")), doc.P("steps", doc.L()))
+		case "quoted-merge-key":
+			// a key spelled "<<" as a quoted string / JSON key is an ordinary key, not a merge: what its mapping value
+			// holds (kind-determining keys, a type) is none of the step's business
+			inner := []*doc.Node{
+				doc.M(doc.P("wait", doc.Null())),
+				doc.M(doc.P("type", doc.S("wait"))),
+				doc.M(doc.P("command", doc.S("make")), doc.P("type", doc.S("command"))),
+				doc.M(doc.P("trigger", doc.S("deploy")), doc.P("block", doc.S("b")), doc.P("group", doc.S("g"))),
+				doc.L(doc.M(doc.P("type", doc.S("trigger")))),
+			}[i%5]
+			pairs = append(pairs, doc.P("<<", inner))
 		case "many":
 			for k := 0; k < 12; k++ {
 				pairs = append(pairs, doc.P(fmt.Sprintf("extra_%d", k), gen.Value(r, gen.ValueOpts{MaxDepth: 2, Str: gen.StringOpts{Tricky: true}, NoTime: true}, 0)))
@@ -324,7 +335,7 @@ func checkC15(c *run.Ctx) {
 		}
 	}
 	c.Finish("exploration",
-		"every subset of the ten kind-determining keys (each with a well-typed value) x `type` in {absent, the nine documented names, unknown names, empty string, a case variant} x five extra-key variants (none, benign, the empty key, alias-named keys, twelve random extras plus a null-valued empty key), key order shuffled, each as a top-level step and inside a group, as JSON and as YAML: the dynamic type of the parsed step and the sentinel inside the warning are compared with the rule table written out in the harness; then all five scalar words and ~200 non-words in three positions; then sequences of 3-60 fallbacks of one cause followed by one of the other, where the warning must still identify both causes and report at least one cause per fallback. distinct_nontrivial counts distinct (key subset, type, extras) rows",
+		"every subset of the ten kind-determining keys (each with a well-typed value) x `type` in {absent, the nine documented names, unknown names, empty string, a case variant} x six extra-key variants (none, benign, the empty key, alias-named keys, twelve random extras plus a null-valued empty key, a quoted `<<` key whose mapping value holds kind-determining keys), key order shuffled, each as a top-level step and inside a group, as JSON and as YAML: the dynamic type of the parsed step and the sentinel inside the warning are compared with the rule table written out in the harness; then all five scalar words and ~200 non-words in three positions; then sequences of 3-60 fallbacks of one cause followed by one of the other, where the warning must still identify both causes and report at least one cause per fallback. distinct_nontrivial counts distinct (key subset, type, extras) rows",
 		map[string]any{"exhaustive": true, "exhaustive_note": "the key-subset x type x extra-variant table is enumerated completely; scalar non-words are a sample"},
 		[]string{"a non-string `type` is a hard error by design and is not in the table", "warning text is not checked"})
 }
